@@ -64,7 +64,7 @@ def check_vc(pc, goal, timeout_ms=None, want_model=True, use_cvc5=True) -> VCRes
         return VCResult("refuted", "z3", dt, model=s.model() if want_model else None)
     reason = s.reason_unknown() if r != z3.sat else "sat with an uninterpreted spec function (not a counter-model by itself)"
     try:
-        w = random_refute(pc, goal)
+        w = None if untrusted else random_refute(pc, goal)     # (a VC whose models are declared untrusted is not refuted by instantiation either)
     except z3.Z3Exception:
         w = None
     if w is not None:
